@@ -1260,3 +1260,52 @@ func (e *Env) faultOutcome(op string, err error, hasErr bool) bool {
 	}
 	return true
 }
+
+// VisitEvicting runs a full key-only (or with-value) ascending visit whose callback calls
+// EvictSomeItems at the evictAt-th item - what CopyTo does to its source - and compares the sequence.
+func (e *Env) VisitEvicting(name string, withValue bool, evictAt int) {
+	if !e.begin("VisitEvicting(%q,%v,evictAt=%d)", name, withValue, evictAt) {
+		return
+	}
+	c, m := e.coll(name)
+	if c == nil {
+		return
+	}
+	e.Stats["op.VisitEvicting"]++
+	var got []model.KV
+	var err error
+	n := 0
+	e.guard("Visit", func() {
+		e.tag("VisitAsc(kv)")
+		err = c.VisitItemsAscend(belowAll(m), withValue, func(i *gkvlite.Item) bool {
+			// the item must be referenced when it is handed over (what the callback does to
+			// the cache afterwards is its own business)
+			if e.RC != nil {
+				e.RC.CheckHandedOut(i, "visitor")
+			}
+			kv := model.KV{Key: append([]byte{}, i.Key...), Prio: i.Priority}
+			if withValue && i.Val != nil {
+				kv.Val = append([]byte{}, i.Val...)
+			}
+			got = append(got, kv)
+			if n == evictAt {
+				for k := 0; k < 4; k++ {
+					e.Stats["evicted"] += int64(c.EvictSomeItems())
+				}
+			}
+			n++
+			return true
+		})
+		e.tag("")
+	})
+	if e.Failed() {
+		return
+	}
+	if err != nil {
+		e.Failf("visit/unexpected-error", "visit with evicting callback: %v", err)
+		return
+	}
+	if d := diffKVs(got, m.Ascend(belowAll(m)), withValue); d != "" {
+		e.Failf("visit/wrong-sequence/evicting-callback", "visit whose callback evicts: %s", d)
+	}
+}
